@@ -62,3 +62,9 @@ impl<T> HqIndex<usize> for [T] {
 
 // "x occurs among the first n elements of s"
 spec fn seq_has<T>(s: Seq<T>, n: int, x: T) -> bool { exists|i: int| 0 <= i < n && #[trigger] s[i] == x }
+
+// <[T]>::contains (assumed: element equality is structural for the id types it is used on)
+pub assume_specification<T: PartialEq> [<[T]>::contains] (s: &[T], x: &T) -> (r: bool)
+    ensures r == s@.contains(*x);
+pub assume_specification<T> [std::mem::replace] (dest: &mut T, src: T) -> (r: T)
+    ensures r == *old(dest), *final(dest) == src;
